@@ -51,6 +51,9 @@ def mask_guard_of_loop(loop, chan_name_hint=None):
         x = x["recv"]
     meths = [c["name"] for c in reversed(chain)]
     out = {"over": x, "methods": meths, "chan": None, "elem": None, "guard": None, "body": None, "node": loop}
+    pat = loop["pat"]
+    if pat.get("k") == "ptuple" and len(pat["elems"]) == 2 and pat["elems"][0].get("k") == "pident" and pat["elems"][1].get("k") == "pwild" and "enumerate" in meths:
+        names = [pat["elems"][0]["name"], None]       # `for (chan, _) in ..`
     if "enumerate" not in meths or len(names) != 2:
         return out
     out["chan"], out["elem"] = names[0], names[1]
@@ -60,6 +63,21 @@ def mask_guard_of_loop(loop, chan_name_hint=None):
         cl = f["args"][0]
         cn = ir.pat_names(cl["params"][0]) if cl.get("k") == "closure" else []
         b = cl["body"] if cl.get("k") == "closure" else None
+        # MASK.iter().enumerate().filter(|(_, active)| **active): the mask itself is iterated and its own element is the test
+        cp = cl["params"][0] if cl.get("k") == "closure" and cl["params"] else None
+        if b is not None and cp is not None and cp.get("k") == "ptuple" and len(cp["elems"]) == 2 and cp["elems"][1].get("k") == "pident" \
+                and meths[:2] == ["iter", "enumerate"] and meths.index("filter") == 2:
+            en = cp["elems"][1]["name"]
+            d = b
+            nderef = 0
+            while d.get("k") == "un" and d["op"] == "*":
+                d = d["e"]
+                nderef += 1
+            if is_path(d, en) and nderef == 2:
+                out["guard"] = "if-active"
+                out["mask_expr"] = x
+                out["body"] = body
+                return out
         # |(chan, _)| self.channel_mask[*chan]   or   mask[*chan]
         if b is not None and b.get("k") == "index" and cn:
             idx = b["i"]
@@ -80,11 +98,18 @@ def mask_guard_of_loop(loop, chan_name_hint=None):
     return out
 
 
+def _unlocal(e, st):
+    """the expression with plain locals replaced by the values they were bound to (a range written through `let` locals is the same range)"""
+    if is_path(e) and e["p"] in st.locals and st.locals[e["p"]].get("k") != "havoc":
+        return st.locals[e["p"]]
+    return e
+
+
 def extract(facts, tname):
     fn = facts.need_method(tname, "process_into_buffer", "Resampler")
     sx = SymExec(facts, tname)
     st = SymState()
-    stmts = fn["body"]["stmts"]
+    stmts = ir.inline_self_calls(facts, tname, fn["body"]["stmts"])
     wave_in, wave_out, maskp = [p["name"] for p in fn["params"]]
     m = {"fn": fn, "type": tname, "wave_in": wave_in, "wave_out": wave_out, "mask_param": maskp,
          "shift": None, "load": None, "validate": None, "arms": [], "epilogue": None, "ret": None,
@@ -94,6 +119,8 @@ def extract(facts, tname):
     while i < len(stmts):
         s = stmts[i]
         e = _stmt_expr(s)
+        if e is not None and ir.as_for(e) is not None and find_copy_within(ir.as_for(e)) is not None:
+            e = ir.as_for(e)       # `self.buffer.iter_mut().for_each(|buf| buf.copy_within(..))` is the same loop
         if _noop(s):
             i += 1
             continue
@@ -108,7 +135,7 @@ def extract(facts, tname):
                 rng = cw["recv"] and cw["args"][0]
                 if rng.get("k") != "range" or not rng.get("lo") or not rng.get("hi"):
                     raise AnchorMissing("%s: copy_within source is not a closed range" % tname)
-                m["shift"] = {"A": sx.eval(rng["lo"], st), "A_raw": rng["lo"], "hi": sx.eval(rng["hi"], st), "hi_raw": rng["hi"],
+                m["shift"] = {"A": sx.eval(rng["lo"], st), "A_raw": _unlocal(rng["lo"], st), "hi": sx.eval(rng["hi"], st), "hi_raw": _unlocal(rng["hi"], st),
                               "dest": sx.eval(cw["args"][1], st), "node": cw, "loop": e,
                               "guarded": mask_guard_of_loop(e)["guard"], "fields_at": dict(st.fields)}
                 m["order"].append("shift")
